@@ -1,4 +1,11 @@
-(* C19 - the client never wedges and refuses work unless a session is alive (placeholder, extended below). *)
+(* C19 - the client never wedges and refuses work unless a session is alive.
+   Model/Client.v: APIClient's bookkeeping over a sequence of Model/Conn.v connections.
+   Proved here: the acceptance rule, the refusal of commands and requests without a live session (nothing written, state
+   untouched), and that every way a connection ends or a connect phase fails clears the client's reference in the very
+   callback in which it happens.  PARTIAL in one named respect: the run-level corollary "whenever no attempt is in progress
+   and no session is alive the client holds no connection" (which needs that a connection that was never connected only
+   closes while one of its coroutines is in flight) is checked on the implementation at every quiescent point and by trace
+   validation on every run, not yet proved as a theorem about runs. *)
 From Coq Require Import NArith ZArith List Bool.
 From Verif Require Import Model.Conn Model.Client.
 Import ListNotations.
@@ -11,3 +18,61 @@ Proof.
   - destruct (step _ LStart) as [[c1 o1]|]; [|discriminate]. intro H. injection H as _ <-.
     split; [|discriminate]. intro Hin. apply in_map_iff in Hin. destruct Hin as (x & Hx & _). discriminate.
 Qed.
+(* a refused start changes nothing; an accepted one works on a brand-new connection object *)
+Theorem C19_refused_start_is_noop : forall k k' o, cstep k CStart = Some (k', o) -> cl_has k = true -> k' = k /\ o = [CRaiseAlready].
+Proof. intros k k' o. cbn [cstep]. intros E H. rewrite H in E. injection E as <- <-. auto. Qed.
+Theorem C19_accepted_start_is_fresh : forall k k' o,
+  cstep k CStart = Some (k', o) -> cl_has k = false -> cl_sessions k' = S (cl_sessions k) /\ cs (cl_conn k') = Init /\ cl_has k' = true.
+Proof.
+  intros k k' o. cbn [cstep]. intros E H. rewrite H in E.
+  unfold new_conn in E. destruct (cl_cfg k) as [[[nz ex] ka] scr]. cbn [step] in E. cbn in E.
+  injection E as <- _. cbn. auto.
+Qed.
+
+(* commands and requests without a live, authenticated session: a connection error, nothing written, nothing changed *)
+Theorem C19_command_refused : forall k tys k' o,
+  cstep k (CCommand tys) = Some (k', o) -> (cl_has k = false \/ is_connected (cl_conn k) = false) ->
+  k' = k /\ (o = [CRaiseNotConnected] \/ o = [CRaiseNotReady]).
+Proof.
+  intros k tys k' o. cbn [cstep]. destruct (cl_has k); [|intros E _; injection E as <- <-; auto].
+  destruct (is_connected (cl_conn k)); [intros _ [H|H]; discriminate|]. intros E _. injection E as <- <-. auto.
+Qed.
+Theorem C19_request_refused : forall k k' o,
+  cstep k CRequest = Some (k', o) -> (cl_has k = false \/ is_connected (cl_conn k) = false) ->
+  k' = k /\ (o = [CRaiseNotConnected] \/ o = [CRaiseNotReady]).
+Proof.
+  intros k k' o. cbn [cstep]. destruct (cl_has k); [|intros E _; injection E as <- <-; auto].
+  destruct (is_connected (cl_conn k)); [intros _ [H|H]; discriminate|]. intros E _. injection E as <- <-. auto.
+Qed.
+
+(* every ending clears the reference at once: the stop hook, a failed connect phase, a returned disconnect() *)
+Theorem C19_endings_clear : forall k l k' o,
+  cstep k (CConn l) = Some (k', o) ->
+  (exists b, In (CO (OStop b)) o) \/ (exists e, In (CO (OTaskDone TStart (TRaise e))) o) \/
+  (exists e, In (CO (OTaskDone TFinish (TRaise e))) o) \/ In (CO (OTaskDone TDisc TOk)) o ->
+  cl_has k' = false.
+Proof.
+  intros k l k' o. cbn [cstep]. destruct (allowed_conn_label l); [|discriminate].
+  destruct (step (cl_conn k) l) as [[c1 o1]|]; [|discriminate]. unfold after. intro E. injection E as <- <-. cbn.
+  intro H. assert (Hc : clears o1 = true).
+  { unfold clears. apply existsb_exists.
+    destruct H as [[b H]|[[e H]|[[e H]|H]]]; apply in_map_iff in H; destruct H as (x & Hx & Hin); injection Hx as ->; eexists; (split; [exact Hin|reflexivity]). }
+  rewrite Hc. reflexivity.
+Qed.
+Theorem C19_forced_disconnect_clears : forall k k' o, cstep k (CDisconnect true) = Some (k', o) -> cl_has k' = false.
+Proof.
+  intros k k' o. cbn [cstep]. destruct (cl_has k) eqn:E; [|intro H; injection H as <- _; exact E].
+  destruct (step (cl_conn k) LForce) as [[c1 o1]|]; [|discriminate]. intro H. injection H as <- _. reflexivity.
+Qed.
+
+(* non-vacuity: connect, peer closes, connect again; a command in between is refused *)
+Definition hello : msg := mkMsg T_HELLO_RESP true 0 1 NameEmpty false.
+Definition discreq : msg := mkMsg T_DISC_REQ true 0 0 NameEmpty false.
+Definition session : list clabel :=
+  [CStart; CConn (LResolveDone None 1); CConn (LWake TStart); CConn (LTcpDone None); CConn (LWake TStart); CConn (LIntr true);
+   CFinish false; CConn LMade; CConn LMadeWaiter; CConn (LWake TFinish); CConn (LData [DFrame hello]); CConn (LWake TFinish); CConn (LIntr false)].
+Example C19_two_sessions :
+  option_map (fun r => (cl_has (fst r), cl_sessions (fst r), cs (cl_conn (fst r)), last (snd r) []))
+    (crun (client_init false false 20480 []) (session ++ [CStart; CConn (LData [DFrame discreq]); CCommand [33%N]; CStart]))
+  = Some (true, 2%nat, Init, []).
+Proof. vm_compute. reflexivity. Qed.
